@@ -94,7 +94,7 @@ const RULE_CMDS : [(&[&str], &str); 5] = [
     (&["song.txt"], "mycat refrain.txt verse.txt song.txt"), (&["album.txt"], "mycat song.txt note.txt album.txt")];
 
 #[derive(Clone, Copy, Debug, PartialEq)]
-enum Act { VerseA, VerseB, RefrainS, Build, BuildPoem, Clean, CleanStanza, TamperStanza, DeleteStanza, DropCacheEntryOfStanza, HiddenGone, HiddenBack, NoteLikeVerseA, CleanAside }
+enum Act { VerseA, VerseB, RefrainS, Build, BuildPoem, Clean, CleanStanza, TamperStanza, DeleteStanza, DropCacheEntryOfStanza, HiddenGone, HiddenBack, NoteLikeVerseA, CleanAside, SwapVerseRefrain, DropSongRules }
 const ACTS : [Act; 12] = [Act::VerseA, Act::VerseB, Act::RefrainS, Act::Build, Act::BuildPoem, Act::Clean, Act::CleanStanza, Act::TamperStanza, Act::DeleteStanza, Act::DropCacheEntryOfStanza, Act::HiddenGone, Act::HiddenBack];
 
 fn params(goal: Option<&str>) -> BuildParams { BuildParams::from_all(".ruler".to_string(), vec!["build.rules".to_string()], None, goal.map(|s| s.to_string())) }
@@ -149,6 +149,7 @@ fn run_history(h: &Vec<Act>, drop_table: bool) -> Outcome
     let mut stanza_settled : Option<String> = None;
     let mut complaints = vec![]; let mut verdicts = vec![];
     let mut last_was_ok_build = false; let mut last_was_clean_after_ok_build = false;
+    let mut reduced = false;      /*  song.txt / album.txt no longer have rules */
     for a in h.iter()
     {
         system.time_passes(1);
@@ -163,6 +164,18 @@ fn run_history(h: &Vec<Act>, drop_table: bool) -> Outcome
             Act::VerseB => { write_str_to_file(&mut system, "verse.txt", "Violets are blue.\n").unwrap(); },
             Act::RefrainS => { write_str_to_file(&mut system, "refrain.txt", "Sha la la.\n").unwrap(); },
             Act::NoteLikeVerseA => { write_str_to_file(&mut system, "note.txt", "Roses are red.\n").unwrap(); },
+            /*  two sources of one rule trade contents (the same multiset of source hashes, in another order) */
+            Act::SwapVerseRefrain =>
+            {
+                let (v, r) = (read(&system, "verse.txt").unwrap(), read(&system, "refrain.txt").unwrap());
+                write_str_to_file(&mut system, "verse.txt", &r).unwrap(); write_str_to_file(&mut system, "refrain.txt", &v).unwrap();
+            },
+            /*  the rules of song.txt and album.txt are taken out of the rules file: from now on these two files are nobody's targets */
+            Act::DropSongRules =>
+            {
+                let cut = RULES.find("song.txt\n:").unwrap();
+                write_str_to_file(&mut system, "build.rules", &RULES[..cut]).unwrap(); reduced = true;
+            },
             Act::HiddenGone => { if system.is_file("hidden.txt") { system.remove_file("hidden.txt").unwrap(); } },
             Act::HiddenBack => { write_str_to_file(&mut system, "hidden.txt", "(hidden)\n").unwrap(); },
             Act::TamperStanza => { write_str_to_file(&mut system, "stanza.txt", "tampered\n").unwrap(); stanza_settled = None; },
@@ -189,9 +202,10 @@ fn run_history(h: &Vec<Act>, drop_table: bool) -> Outcome
                     the command; targets of failed or cancelled rules get no success status; after a successful build of
                     everything every target has its status */
                 {
-                    let failed_song = !hidden && new_log.iter().any(|c| c.starts_with("mycat refrain.txt verse.txt song.txt"));
+                    let failed_song = !reduced && !hidden && new_log.iter().any(|c| c.starts_with("mycat refrain.txt verse.txt song.txt"));
                     for (targets, cmd) in RULE_CMDS.iter()
                     {
+                        if reduced && (targets[0] == "song.txt" || targets[0] == "album.txt") { continue; }
                         let ran = new_log.iter().any(|c| c.starts_with(cmd));
                         for t in targets.iter()
                         {
@@ -233,7 +247,7 @@ fn run_history(h: &Vec<Act>, drop_table: bool) -> Outcome
                 }
                 /*  C04: a failing rule (its command cannot read hidden.txt) gives exactly one error, its dependent does not run,
                     everything that does not depend on it is still brought up to date */
-                if goal.is_none()
+                if goal.is_none() && !reduced
                 {
                     if !hidden && new_log.iter().any(|c| c.starts_with("mycat refrain.txt verse.txt song.txt"))
                     {
@@ -260,7 +274,7 @@ fn run_history(h: &Vec<Act>, drop_table: bool) -> Outcome
                     /*  C01: from-scratch outputs of the current sources */
                     let verse = read(&system, "verse.txt").unwrap(); let refrain = read(&system, "refrain.txt").unwrap(); let note = read(&system, "note.txt").unwrap();
                     let mut expect = vec![("stanza.txt", verse.clone()), ("poem.txt", format!("{}{}", verse, refrain))];
-                    if goal.is_none() { expect.push(("aside.txt", note.clone())); expect.push(("copy.txt", note.clone())); expect.push(("song.txt", format!("{}{}", refrain, verse))); expect.push(("album.txt", format!("{}{}{}", refrain, verse, note))); }
+                    if goal.is_none() { expect.push(("aside.txt", note.clone())); expect.push(("copy.txt", note.clone())); if !reduced { expect.push(("song.txt", format!("{}{}", refrain, verse))); expect.push(("album.txt", format!("{}{}{}", refrain, verse, note))); } }
                     for (p, want) in expect.iter()
                     {
                         if read(&system, p).as_ref() != Some(want) { complaints.push(("B-build-C01".to_string(), format!("after a successful build {} holds {:?}, a from-scratch build gives {:?}", p, read(&system, p), want))); }
@@ -282,14 +296,16 @@ fn run_history(h: &Vec<Act>, drop_table: bool) -> Outcome
                     running a command are the C01 / C02 oracles) */
                 if cleaned.is_ok()
                 {
-                    let in_scope : Vec<&str> = match a { Act::CleanStanza => vec!["stanza.txt"], Act::CleanAside => vec!["aside.txt", "copy.txt"], _ => vec!["stanza.txt", "poem.txt", "aside.txt", "copy.txt", "song.txt", "album.txt"] };
+                    let in_scope : Vec<&str> = match a { Act::CleanStanza => vec!["stanza.txt"], Act::CleanAside => vec!["aside.txt", "copy.txt"], _ => if reduced { vec!["stanza.txt", "poem.txt", "aside.txt", "copy.txt"] } else { vec!["stanza.txt", "poem.txt", "aside.txt", "copy.txt", "song.txt", "album.txt"] } };
                     for p in in_scope.iter() { if system.is_file(p) { complaints.push(("B-build-C10".to_string(), format!("{} is still in the workspace after a clean that reported success", p))); } }
                 }
             },
         }
         if is_ruler
         {
-            let scope_free : Vec<&str> = match a { Act::BuildPoem => OUT_OF_POEM_SCOPE.to_vec(), Act::CleanStanza => OUT_OF_STANZA_SCOPE.to_vec(), _ => vec![] };
+            let mut scope_free : Vec<&str> = match a { Act::BuildPoem => OUT_OF_POEM_SCOPE.to_vec(), Act::CleanStanza => OUT_OF_STANZA_SCOPE.to_vec(), _ => vec![] };
+            /*  files that are no rule's target (any more) are out of every scope */
+            if reduced { scope_free.push("song.txt"); scope_free.push("album.txt"); }
             for (p, st) in stats_before.iter()
             {
                 if (UNTOUCHABLE.contains(&p.as_str()) || scope_free.contains(&p.as_str())) && stat(&system, p) != *st
@@ -372,6 +388,10 @@ fn verif_build_long_histories()
         vec![Build, VerseB, NoteLikeVerseA, Build, CleanAside, VerseA, BuildPoem],
         vec![Build, VerseB, NoteLikeVerseA, Build, Clean, VerseA, Build],
         vec![Build, HiddenGone, VerseB, Build, HiddenBack, Build],
+        vec![Build, SwapVerseRefrain, Build],
+        vec![Build, SwapVerseRefrain, Build, SwapVerseRefrain, Build],
+        vec![Build, DropSongRules, Build],
+        vec![Build, DropSongRules, Build, Clean, Build],
     ];
     let names = ["B-build-C01", "B-build-C02", "B-build-C04", "B-build-C07", "B-build-C08", "B-build-C09", "B-build-C10", "B-build-C18", "B-build-C20"];
     let mut bad = vec![0u64; names.len()];
